@@ -1,0 +1,14 @@
+//go:build verif
+
+package server
+
+// VerifHook, when set, is called at named points of the server (build tag
+// verif only). It is used by external verification harnesses to pin or widen
+// goroutine interleavings.
+var VerifHook func(point string)
+
+func verifPoint(p string) {
+	if h := VerifHook; h != nil {
+		h(p)
+	}
+}
